@@ -149,8 +149,13 @@ fn seq_name(seq: &[Out]) -> Vec<&'static str> {
 
 /// as-of instant attached to the i-th message of a lifetime that started at uptime `m0_s`
 fn as_of_for(m0_s: i64, i: usize) -> libc::timespec {
-    libc::timespec { tv_sec: m0_s + i as i64, tv_nsec: 123_456_789 + i as i64 }
+    // spacing of successive as-of instants: 1 s (+1 ns) by default; C08 also runs its histories with 300 ms,
+    // so that several successive reports are stamped within one and the same second (thirteenth round)
+    let sp = AS_OF_SPACING_MS.with(|c| c.get());
+    let t = m0_s as i128 * 1_000_000_000 + 123_456_789 + i as i128 + i as i128 * sp as i128 * 1_000_000;
+    libc::timespec { tv_sec: (t / 1_000_000_000) as i64, tv_nsec: (t % 1_000_000_000) as i64 }
 }
+thread_local! { static AS_OF_SPACING_MS: std::cell::Cell<i64> = const { std::cell::Cell::new(1000) }; }
 
 /// Run one lifetime's outcome sequence through the real process_messages; returns the published records.
 fn publish_seq(seq: &[Out], drift: u32, phc: i64, m0_s: i64) -> Result<Vec<Rec>, String> {
@@ -258,6 +263,17 @@ pub fn run_c08(ctx: &Ctx) -> i32 {
                 c08_check(&seq, cfgs[ci].0, cfgs[ci].1, 5000, &mut sink, &mut states, &mut trans);
                 n += 1;
             }
+        }
+        if ci == 0 {
+            // the same histories (depth 5) with reports stamped 300 ms apart: up to four per second
+            AS_OF_SPACING_MS.with(|c| c.set(300));
+            for t in sequences(&ALL_OUT, 4) {
+                let mut seq = vec![first];
+                seq.extend(t);
+                c08_check(&seq, cfgs[ci].0, cfgs[ci].1, 5000, &mut sink, &mut states, &mut trans);
+                n += 1;
+            }
+            AS_OF_SPACING_MS.with(|c| c.set(1000));
         }
         (sink, states, trans, n)
     });
@@ -391,6 +407,7 @@ pub fn run_c08(ctx: &Ctx) -> i32 {
         ("distinct_nontrivial", json!(n)),
         ("rule", json!("every sequence of poll outcomes of the stated depth over 10 outcome kinds, for each configuration; every sequence is distinct; every publication of every prefix is compared field by field with the reference updater")),
         ("depth", json!(depth)),
+        ("as_of_spacing", json!({"default_ms": 1000, "also_ms": 300, "what": "successive reports stamped 1 s + 1 ns apart in every history; the depth-5 histories of the first configuration once more 300 ms + 1 ns apart (several reports within one second)"})),
         ("pipeline_phase", json!({"histories": p2_n, "depth": p2_depth, "step_alphabet": p2_alpha.len(), "what": "poll answers (tracking with the PHC's id and a readable / unreadable PHC file, another id, unsynchronised, stale, silence) x gap 1 s / 5.1 s through the real poller and the real writer loop; status compared with the documented one for the outcome"})),
         ("long_history_outcomes", json!(long_seq.len())),
         ("outcome_kinds", json!(ALL_OUT.iter().map(|o| o.name()).collect::<Vec<_>>())),
